@@ -1,3 +1,4 @@
+import codecs
 import os
 import sys
 import time
@@ -825,6 +826,15 @@ class spawn(SpawnBase):
         '''This is used by the interact() method.
         '''
 
+        # The data is copied as bytes, but in unicode mode the log files get
+        # text, as everywhere else: child output goes through the instance's
+        # decoder, keystrokes through one of their own.
+        if self.encoding is None:
+            decode_sent = lambda b: b
+        else:
+            decode_sent = codecs.getincrementaldecoder(self.encoding)(
+                self.codec_errors).decode
+
         while self.isalive():
             if self.use_poll:
                 r = poll_ignore_interrupts([self.child_fd, self.STDIN_FILENO])
@@ -845,7 +855,7 @@ class spawn(SpawnBase):
                     break
                 if output_filter:
                     data = output_filter(data)
-                self._log(data, 'read')
+                self._log(self._decoder.decode(data, final=False), 'read')
                 os.write(self.STDOUT_FILENO, data)
             if self.STDIN_FILENO in r:
                 data = self.__interact_read(self.STDIN_FILENO)
@@ -857,10 +867,10 @@ class spawn(SpawnBase):
                 if i != -1:
                     data = data[:i]
                     if data:
-                        self._log(data, 'send')
+                        self._log(decode_sent(data), 'send')
                     self.__interact_writen(self.child_fd, data)
                     break
-                self._log(data, 'send')
+                self._log(decode_sent(data), 'send')
                 self.__interact_writen(self.child_fd, data)
 
 
